@@ -246,16 +246,17 @@ theorem inRanges_sub {rs rs' : List (Nat × Nat)} (h : rangesSub rs rs' = true) 
   exact ⟨r', hr', by omega, by omega⟩
 
 /-- The table facts for the full character repertoire (byte tables agree with the character tables
-on ASCII, NameStartChar ⊆ NameChar, delimiters are not name-start characters) hold of the tables of
-the build (re-checked whenever `Generated.lean` changes). -/
+on ASCII, NameStartChar ⊆ NameChar, delimiters are not name-start characters, white space is ASCII and
+not a name character) hold of the tables of the build (re-checked whenever `Generated.lean` changes). -/
 theorem generated_tables_canon5 : TablesCanon5 Generated.tables := by
-  refine ⟨?_, ?_, ?_, ?_, ?_, ?_⟩
+  refine ⟨?_, ?_, ?_, ?_, ?_, ?_, ?_⟩
   · apply all_bytes; decide +kernel
   · apply all_bytes; decide +kernel
   · apply all_bytes; decide +kernel
   · exact inRanges_sub (rs := Generated.implNameStart) (rs' := Generated.implName) (by decide)
   · apply all_bytes; decide +kernel
   · decide
+  · apply all_bytes; decide +kernel
 
 /-- **Whole documents over the full character repertoire** (`parse ∘ renderDoc` for EVERY document of
 the class `Rox.Spec.Canon5.docOk5`: as `whole_document_mirrors`, with element, attribute, PI and
